@@ -197,7 +197,12 @@ theorem name_injective {k k' : Kind} (h : k.name = k'.name) : k = k' := by
 
 /-! ## PART B — kinds per modelled function
 
-  `closed_*` / `direct_*`: one lookup of a key in the regenerated table, stated as a literal list.
+  `direct_*`: one lookup of a key in `Gen.errDirect`, stated as an exact literal list (a changed kind at
+  one of the function's own sites breaks it).
+  `closed_*`: a SUBSET statement — the kinds the model function can return occur in the closed list of
+  the key. (`Gen.errClosed` is a coarse name-based closure: a new error site in some callee changes many
+  closed lists; the subset form is insensitive to that.)  `closedExact_*`: the few closed lists that are
+  claimed exactly (leaf functions); not used by the sound proofs.
   `*_sound`: every kind the model function returns is in the closed list of the Go function.
   `*_complete`: the direct list of the Go function, and for each of its kinds a concrete input on
   which the model returns exactly that kind. -/
@@ -216,7 +221,11 @@ macro "kind_mem" : tactic => `(tactic| first | decide | simp [Kind.name, Kind.to
 
 /-! ### auxmath.Pow -/
 
-theorem closed_auxmath_Pow : kindsOf Gen.errClosed "auxmath.Pow" = ["Overflow"] := by decide +kernel
+theorem closed_auxmath_Pow :
+    ∀ x ∈ ["Overflow"], x ∈ kindsOf Gen.errClosed "auxmath.Pow" := by decide +kernel
+/-- exactness claim (not used by the sound proofs): this function constructs nothing else, also through its callees -/
+theorem closedExact_auxmath_Pow :
+    kindsOf Gen.errClosed "auxmath.Pow" = ["Overflow"] := by decide +kernel
 theorem direct_auxmath_Pow : kindsOf Gen.errDirect "auxmath.Pow" = ["Overflow"] := by decide +kernel
 
 theorem pow_err {a n : Nat} {k : Kind} (h : Auxmath.pow a n = .error k) : k = .overflow := by
@@ -225,15 +234,15 @@ theorem pow_err {a n : Nat} {k : Kind} (h : Auxmath.pow a n = .error k) : k = .o
 
 theorem pow_sound (a n : Nat) (k : Kind) (h : Auxmath.pow a n = .error k) :
     k.name ∈ kindsOf Gen.errClosed "auxmath.Pow" := by
-  rw [closed_auxmath_Pow, pow_err h]; kind_mem
+  rw [pow_err h]; apply closed_auxmath_Pow; kind_mem
 
 theorem pow_complete : kindsOf Gen.errDirect "auxmath.Pow" = ["Overflow"] ∧
     Auxmath.pow 2 64 = .error .overflow := ⟨direct_auxmath_Pow, by decide +kernel⟩
 
 /-! ### auxmath.FactorizePrimePower -/
 
-theorem closed_auxmath_FactorizePrimePower : kindsOf Gen.errClosed "auxmath.FactorizePrimePower" =
-    ["InputValue", "InputIncompatible", "ArithmeticIncompat", "Overflow"] := by decide +kernel
+theorem closed_auxmath_FactorizePrimePower :
+    ∀ x ∈ ["InputValue"], x ∈ kindsOf Gen.errClosed "auxmath.FactorizePrimePower" := by decide +kernel
 theorem direct_auxmath_FactorizePrimePower :
     kindsOf Gen.errDirect "auxmath.FactorizePrimePower" = ["InputValue"] := by decide +kernel
 
@@ -245,7 +254,7 @@ theorem fpp_err {q : Nat} {k : Kind} (h : Auxmath.factorizePrimePower q = .error
 
 theorem fpp_sound (q : Nat) (k : Kind) (h : Auxmath.factorizePrimePower q = .error k) :
     k.name ∈ kindsOf Gen.errClosed "auxmath.FactorizePrimePower" := by
-  rw [closed_auxmath_FactorizePrimePower, fpp_err h]; kind_mem
+  rw [fpp_err h]; apply closed_auxmath_FactorizePrimePower; kind_mem
 
 /-- both error sites of the Go function (0 or 1; not a prime power) -/
 theorem fpp_complete : kindsOf Gen.errDirect "auxmath.FactorizePrimePower" = ["InputValue"] ∧
@@ -255,8 +264,8 @@ theorem fpp_complete : kindsOf Gen.errDirect "auxmath.FactorizePrimePower" = ["I
 
 /-! ### primefield.Define -/
 
-theorem closed_primefield_Define : kindsOf Gen.errClosed "primefield.Define" =
-    ["InputValue", "InputIncompatible", "InputTooLarge", "ArithmeticIncompat", "Overflow"] := by decide +kernel
+theorem closed_primefield_Define :
+    ∀ x ∈ ["InputValue", "InputTooLarge"], x ∈ kindsOf Gen.errClosed "primefield.Define" := by decide +kernel
 theorem direct_primefield_Define :
     kindsOf Gen.errDirect "primefield.Define" = ["InputValue", "InputTooLarge"] := by decide +kernel
 
@@ -273,7 +282,7 @@ theorem primeDefine_err {c : Nat} {k : Kind} (h : Prime.define c = .error k) :
 
 theorem primeDefine_sound (c : Nat) (k : Kind) (h : Prime.define c = .error k) :
     k.name ∈ kindsOf Gen.errClosed "primefield.Define" := by
-  rw [closed_primefield_Define]
+  apply closed_primefield_Define
   rcases primeDefine_err h with rfl | rfl <;> kind_mem
 
 theorem definePrime_sound (c : Nat) (k : Kind) (h : Define.prime c = .error k) :
@@ -293,8 +302,14 @@ theorem primeDefine_complete :
 /-! ### conway.lookupInternal / conway.Lookup -/
 
 theorem closed_conway_lookupInternal :
+    ∀ x ∈ ["InputValue", "Internal"], x ∈ kindsOf Gen.errClosed "conway.lookupInternal" := by decide +kernel
+/-- exactness claim (not used by the sound proofs): this function constructs nothing else, also through its callees -/
+theorem closedExact_conway_lookupInternal :
     kindsOf Gen.errClosed "conway.lookupInternal" = ["InputValue", "Internal"] := by decide +kernel
 theorem closed_conway_Lookup :
+    ∀ x ∈ ["InputValue", "Internal"], x ∈ kindsOf Gen.errClosed "conway.Lookup" := by decide +kernel
+/-- exactness claim (not used by the sound proofs): this function constructs nothing else, also through its callees -/
+theorem closedExact_conway_Lookup :
     kindsOf Gen.errClosed "conway.Lookup" = ["InputValue", "Internal"] := by decide +kernel
 theorem direct_conway_lookupInternal :
     kindsOf Gen.errDirect "conway.lookupInternal" = ["InputValue", "Internal"] := by decide +kernel
@@ -310,8 +325,8 @@ theorem lookupIn_err {t : String} {p n : Nat} {k : Kind} (h : Conway.lookupIn t 
 theorem lookupIn_sound (t : String) (p n : Nat) (k : Kind) (h : Conway.lookupIn t p n = .error k) :
     k.name ∈ kindsOf Gen.errClosed "conway.lookupInternal" ∧
     k.name ∈ kindsOf Gen.errClosed "conway.Lookup" := by
-  rw [closed_conway_lookupInternal, closed_conway_Lookup]
-  rcases lookupIn_err h with rfl | rfl <;> exact ⟨by kind_mem, by kind_mem⟩
+  rcases lookupIn_err h with rfl | rfl <;>
+    exact ⟨closed_conway_lookupInternal _ (by kind_mem), closed_conway_Lookup _ (by kind_mem)⟩
 
 /-- no entry: InputValue. `Internal` needs a malformed database text (an entry with a wrong number of
     coefficients, or a coefficient that is not a word); on the shipped text `Gen.dbText` it is
@@ -329,9 +344,8 @@ theorem lookupIn_complete :
 
 /-! ### binfield.Define -/
 
-theorem closed_binfield_Define : kindsOf Gen.errClosed "binfield.Define" =
-    ["InputValue", "InputIncompatible", "InputTooLarge", "ArithmeticIncompat", "Overflow", "Internal"] := by
-  decide +kernel
+theorem closed_binfield_Define :
+    ∀ x ∈ ["InputValue", "InputTooLarge", "Internal"], x ∈ kindsOf Gen.errClosed "binfield.Define" := by decide +kernel
 theorem direct_binfield_Define :
     kindsOf Gen.errDirect "binfield.Define" = ["InputValue", "InputTooLarge"] := by decide +kernel
 
@@ -352,7 +366,7 @@ theorem defineBin_err {db : String} {c : Nat} {k : Kind} (h : Define.bin db c = 
 
 theorem defineBin_sound (db : String) (c : Nat) (k : Kind) (h : Define.bin db c = .error k) :
     k.name ∈ kindsOf Gen.errClosed "binfield.Define" := by
-  rw [closed_binfield_Define]
+  apply closed_binfield_Define
   rcases defineBin_err h with rfl | rfl | rfl <;> kind_mem
 
 /-- the three sites of `binfield.Define` (zero; not a power of two; too large), for every database -/
@@ -370,9 +384,8 @@ theorem defineBin_complete (db : String) :
 
 /-! ### extfield.Define -/
 
-theorem closed_extfield_Define : kindsOf Gen.errClosed "extfield.Define" =
-    ["InputValue", "InputIncompatible", "InputTooLarge", "ArithmeticIncompat", "Overflow", "Internal"] := by
-  decide +kernel
+theorem closed_extfield_Define :
+    ∀ x ∈ ["InputValue", "InputTooLarge", "Internal"], x ∈ kindsOf Gen.errClosed "extfield.Define" := by decide +kernel
 theorem direct_extfield_Define : kindsOf Gen.errDirect "extfield.Define" = ["InputValue"] := by
   decide +kernel
 
@@ -394,7 +407,7 @@ theorem defineExt_err {db : String} {c : Nat} {k : Kind} (h : Define.ext db c = 
 
 theorem defineExt_sound (db : String) (c : Nat) (k : Kind) (h : Define.ext db c = .error k) :
     k.name ∈ kindsOf Gen.errClosed "extfield.Define" := by
-  rw [closed_extfield_Define]
+  apply closed_extfield_Define
   rcases defineExt_err h with rfl | rfl | rfl <;> kind_mem
 
 theorem defineExt_complete (db : String) :
@@ -403,9 +416,8 @@ theorem defineExt_complete (db : String) :
 
 /-! ### finitefield.Define -/
 
-theorem closed_finitefield_Define : kindsOf Gen.errClosed "finitefield.Define" =
-    ["InputValue", "InputIncompatible", "InputTooLarge", "ArithmeticIncompat", "Overflow", "Internal"] := by
-  decide +kernel
+theorem closed_finitefield_Define :
+    ∀ x ∈ ["InputValue", "InputTooLarge", "Internal"], x ∈ kindsOf Gen.errClosed "finitefield.Define" := by decide +kernel
 theorem direct_finitefield_Define : kindsOf Gen.errDirect "finitefield.Define" = ["InputValue"] := by
   decide +kernel
 
@@ -427,7 +439,7 @@ theorem defineAny_err {db : String} {c : Nat} {k : Kind} (h : Define.any db c = 
 
 theorem defineAny_sound (db : String) (c : Nat) (k : Kind) (h : Define.any db c = .error k) :
     k.name ∈ kindsOf Gen.errClosed "finitefield.Define" := by
-  rw [closed_finitefield_Define]
+  apply closed_finitefield_Define
   rcases defineAny_err h with rfl | rfl | rfl <;> kind_mem
 
 /-- `errors.Wrap(op, errors.InputValue, err)` around the factorisation error -/
@@ -441,8 +453,7 @@ theorem defineAny_complete (db : String) :
 /-! ### the element parsers -/
 
 theorem closed_primefield_ElementFromString :
-    kindsOf Gen.errClosed "primefield.Field.ElementFromString" =
-    ["InputValue", "InputIncompatible", "ArithmeticIncompat", "Parsing", "Overflow"] := by decide +kernel
+    ∀ x ∈ ["Parsing"], x ∈ kindsOf Gen.errClosed "primefield.Field.ElementFromString" := by decide +kernel
 theorem direct_primefield_ElementFromString :
     kindsOf Gen.errDirect "primefield.Field.ElementFromString" = ["Parsing"] := by decide +kernel
 
@@ -455,7 +466,7 @@ theorem primeParse_err {p : Nat} {s : String} {k : Kind} (h : Prime.parse p s = 
 
 theorem primeParse_sound (p : Nat) (s : String) (k : Kind) (h : Prime.parse p s = .error k) :
     k.name ∈ kindsOf Gen.errClosed "primefield.Field.ElementFromString" := by
-  rw [closed_primefield_ElementFromString, primeParse_err h]; kind_mem
+  rw [primeParse_err h]; apply closed_primefield_ElementFromString; kind_mem
 
 theorem primeParse_complete (p : Nat) :
     kindsOf Gen.errDirect "primefield.Field.ElementFromString" = ["Parsing"] ∧
@@ -468,16 +479,14 @@ theorem primeParse_complete (p : Nat) :
   · exact h
 
 theorem closed_binfield_ElementFromString :
-    kindsOf Gen.errClosed "binfield.Field.ElementFromString" =
-    ["InputValue", "InputIncompatible", "InputTooLarge", "ArithmeticIncompat", "Parsing", "Overflow"] := by
-  decide +kernel
+    ∀ x ∈ ["InputValue", "Parsing", "InputTooLarge"], x ∈ kindsOf Gen.errClosed "binfield.Field.ElementFromString" := by decide +kernel
 theorem direct_binfield_ElementFromString :
     kindsOf Gen.errDirect "binfield.Field.ElementFromString" =
     ["InputValue", "Parsing", "InputTooLarge"] := by decide +kernel
 
 theorem binParse_sound (n m : Nat) (v s : String) (k : Kind) (h : Bin.parse n m v s = .error k) :
     k.name ∈ kindsOf Gen.errClosed "binfield.Field.ElementFromString" := by
-  rw [closed_binfield_ElementFromString]
+  apply closed_binfield_ElementFromString
   rcases Strings.bin_parse_error h with rfl | rfl | rfl <;> kind_mem
 
 /-- the matches of the two inputs with an exponent (the tokeniser evaluates in the kernel, the
@@ -511,16 +520,14 @@ theorem binParse_complete :
     simp [Bin.parseRx.go, hp]
 
 theorem closed_extfield_ElementFromString :
-    kindsOf Gen.errClosed "extfield.Field.ElementFromString" =
-    ["InputValue", "InputIncompatible", "InputTooLarge", "ArithmeticIncompat", "Parsing", "Conversion",
-     "Overflow", "Internal"] := by decide +kernel
+    ∀ x ∈ ["Parsing"], x ∈ kindsOf Gen.errClosed "extfield.Field.ElementFromString" := by decide +kernel
 theorem direct_extfield_ElementFromString :
     kindsOf Gen.errDirect "extfield.Field.ElementFromString" = ["Parsing"] := by decide +kernel
 
 theorem extParse_sound (p : Nat) (g : List Nat) (s : String) (k : Kind)
     (h : Ext.parse p g s = .error k) :
     k.name ∈ kindsOf Gen.errClosed "extfield.Field.ElementFromString" := by
-  rw [closed_extfield_ElementFromString, Strings.ext_parse_error h]; kind_mem
+  rw [Strings.ext_parse_error h]; apply closed_extfield_ElementFromString; kind_mem
 
 /-- `errors.Wrap(op, errors.Parsing, err)` around whatever `PolynomialFromString` reports -/
 theorem extParse_complete :
@@ -531,13 +538,9 @@ theorem extParse_complete :
 /-! ### the polynomial parsers -/
 
 theorem closed_univariate_PolynomialFromString :
-    kindsOf Gen.errClosed "univariate.QuotientRing.PolynomialFromString" =
-    ["InputValue", "InputIncompatible", "InputTooLarge", "ArithmeticIncompat", "Parsing", "Conversion",
-     "Overflow", "Internal"] := by decide +kernel
+    ∀ x ∈ ["Internal", "Parsing", "Conversion"], x ∈ kindsOf Gen.errClosed "univariate.QuotientRing.PolynomialFromString" := by decide +kernel
 theorem closed_univariate_polynomialStringToMap :
-    kindsOf Gen.errClosed "univariate.polynomialStringToMap" =
-    ["InputValue", "InputIncompatible", "InputTooLarge", "ArithmeticIncompat", "Parsing", "Conversion",
-     "Overflow", "Internal"] := by decide +kernel
+    ∀ x ∈ ["Internal", "Parsing", "Conversion"], x ∈ kindsOf Gen.errClosed "univariate.polynomialStringToMap" := by decide +kernel
 theorem direct_univariate_polynomialStringToMap :
     kindsOf Gen.errDirect "univariate.polynomialStringToMap" = ["Internal", "Parsing"] := by
   decide +kernel
@@ -548,8 +551,9 @@ theorem uParse_sound {α : Type} (R : UPoly.Ring α) (s : String) (k : Kind)
     (h : UPoly.parse R s = .error k) :
     k.name ∈ kindsOf Gen.errClosed "univariate.QuotientRing.PolynomialFromString" ∧
     k.name ∈ kindsOf Gen.errClosed "univariate.polynomialStringToMap" := by
-  rw [closed_univariate_PolynomialFromString, closed_univariate_polynomialStringToMap]
-  rcases Strings.u_parse_error h with rfl | rfl | rfl <;> exact ⟨by kind_mem, by kind_mem⟩
+  rcases Strings.u_parse_error h with rfl | rfl | rfl <;>
+    exact ⟨closed_univariate_PolynomialFromString _ (by kind_mem),
+      closed_univariate_polynomialStringToMap _ (by kind_mem)⟩
 
 /-- Parsing: a character no match covers. (`Internal` of `polynomialStringToMap`/`newMonomialMatch` —
     a pattern that does not compile, a match without the expected groups — is unreachable in the Go
@@ -562,13 +566,9 @@ theorem uParse_complete :
   ⟨direct_univariate_polynomialStringToMap, direct_univariate_degreeAndCoef, by decide +kernel⟩
 
 theorem closed_bivariate_PolynomialFromString :
-    kindsOf Gen.errClosed "bivariate.QuotientRing.PolynomialFromString" =
-    ["InputValue", "InputIncompatible", "InputTooLarge", "ArithmeticIncompat", "Parsing", "Conversion",
-     "Overflow", "Internal"] := by decide +kernel
+    ∀ x ∈ ["Internal", "Parsing", "Conversion"], x ∈ kindsOf Gen.errClosed "bivariate.QuotientRing.PolynomialFromString" := by decide +kernel
 theorem closed_bivariate_polynomialStringToMap :
-    kindsOf Gen.errClosed "bivariate.polynomialStringToMap" =
-    ["InputValue", "InputIncompatible", "InputTooLarge", "ArithmeticIncompat", "Parsing", "Conversion",
-     "Overflow", "Internal"] := by decide +kernel
+    ∀ x ∈ ["Internal", "Parsing", "Conversion"], x ∈ kindsOf Gen.errClosed "bivariate.polynomialStringToMap" := by decide +kernel
 theorem direct_bivariate_polynomialStringToMap :
     kindsOf Gen.errDirect "bivariate.polynomialStringToMap" = ["Internal", "Parsing"] := by
   decide +kernel
@@ -577,8 +577,9 @@ theorem bParse_sound {α : Type} (R : BPoly.Ring α) (s : String) (k : Kind)
     (h : BPoly.parse R s = .error k) :
     k.name ∈ kindsOf Gen.errClosed "bivariate.QuotientRing.PolynomialFromString" ∧
     k.name ∈ kindsOf Gen.errClosed "bivariate.polynomialStringToMap" := by
-  rw [closed_bivariate_PolynomialFromString, closed_bivariate_polynomialStringToMap]
-  rcases Strings.b_parse_error h with rfl | rfl | rfl <;> exact ⟨by kind_mem, by kind_mem⟩
+  rcases Strings.b_parse_error h with rfl | rfl | rfl <;>
+    exact ⟨closed_bivariate_PolynomialFromString _ (by kind_mem),
+      closed_bivariate_polynomialStringToMap _ (by kind_mem)⟩
 
 theorem bParse_complete :
     kindsOf Gen.errDirect "bivariate.polynomialStringToMap" = ["Internal", "Parsing"] ∧
@@ -587,8 +588,8 @@ theorem bParse_complete :
 
 /-! ### QuoRem / Rem -/
 
-theorem closed_univariate_QuoRem : kindsOf Gen.errClosed "univariate.Polynomial.QuoRem" =
-    ["InputValue", "InputIncompatible", "ArithmeticIncompat", "Overflow"] := by decide +kernel
+theorem closed_univariate_QuoRem :
+    ∀ x ∈ ["InputValue"], x ∈ kindsOf Gen.errClosed "univariate.Polynomial.QuoRem" := by decide +kernel
 theorem direct_univariate_QuoRem :
     kindsOf Gen.errDirect "univariate.Polynomial.QuoRem" = ["InputValue"] := by decide +kernel
 
@@ -600,21 +601,21 @@ theorem uQuoRem_err {α : Type} {F : FOps α} {fuel : Nat} {f : UPoly α} {gs : 
 theorem uQuoRem_sound {α : Type} (F : FOps α) (fuel : Nat) (f : UPoly α) (gs : List (UPoly α)) (k : Kind)
     (h : UPoly.quoRem F fuel f gs = .error k) :
     k.name ∈ kindsOf Gen.errClosed "univariate.Polynomial.QuoRem" := by
-  rw [closed_univariate_QuoRem, uQuoRem_err h]; kind_mem
+  rw [uQuoRem_err h]; apply closed_univariate_QuoRem; kind_mem
 
 /-- a zero divisor among the divisors -/
 theorem uQuoRem_complete : kindsOf Gen.errDirect "univariate.Polynomial.QuoRem" = ["InputValue"] ∧
     UPoly.quoRem (primeOps 5) 10 [1, 2, 0, 1, 3] [[1, 0, 2], [0]] = .error .inputValue :=
   ⟨direct_univariate_QuoRem, by decide +kernel⟩
 
-theorem closed_bivariate_QuoRem : kindsOf Gen.errClosed "bivariate.Polynomial.QuoRem" =
-    ["InputValue", "InputIncompatible", "ArithmeticIncompat", "Overflow"] := by decide +kernel
-theorem closed_bivariate_quoRemWithIgnore : kindsOf Gen.errClosed "bivariate.Polynomial.quoRemWithIgnore" =
-    ["InputValue", "InputIncompatible", "ArithmeticIncompat", "Overflow"] := by decide +kernel
+theorem closed_bivariate_QuoRem :
+    ∀ x ∈ ["InputValue"], x ∈ kindsOf Gen.errClosed "bivariate.Polynomial.QuoRem" := by decide +kernel
+theorem closed_bivariate_quoRemWithIgnore :
+    ∀ x ∈ ["InputValue"], x ∈ kindsOf Gen.errClosed "bivariate.Polynomial.quoRemWithIgnore" := by decide +kernel
 theorem direct_bivariate_quoRemWithIgnore :
     kindsOf Gen.errDirect "bivariate.Polynomial.quoRemWithIgnore" = ["InputValue"] := by decide +kernel
-theorem closed_bivariate_Rem : kindsOf Gen.errClosed "bivariate.Polynomial.Rem" =
-    ["InputValue", "InputIncompatible", "ArithmeticIncompat", "Overflow"] := by decide +kernel
+theorem closed_bivariate_Rem :
+    ∀ x ∈ ["InputValue"], x ∈ kindsOf Gen.errClosed "bivariate.Polynomial.Rem" := by decide +kernel
 theorem direct_bivariate_Rem :
     kindsOf Gen.errDirect "bivariate.Polynomial.Rem" = ["InputValue"] := by decide +kernel
 
@@ -634,13 +635,13 @@ theorem bQuoRem_sound {α : Type} (F : FOps α) (o : Order) (fuel : Nat) (ig : O
     (gs : List (BPoly α)) (k : Kind) (h : BPoly.quoRem F o fuel ig f gs = .error k) :
     k.name ∈ kindsOf Gen.errClosed "bivariate.Polynomial.quoRemWithIgnore" ∧
     k.name ∈ kindsOf Gen.errClosed "bivariate.Polynomial.QuoRem" := by
-  rw [closed_bivariate_QuoRem, closed_bivariate_quoRemWithIgnore, bQuoRem_err h]
-  exact ⟨by kind_mem, by kind_mem⟩
+  rw [bQuoRem_err h]
+  exact ⟨closed_bivariate_quoRemWithIgnore _ (by kind_mem), closed_bivariate_QuoRem _ (by kind_mem)⟩
 
 theorem bRem_sound {α : Type} (F : FOps α) (o : Order) (fuel : Nat) (f : BPoly α)
     (gs : List (BPoly α)) (k : Kind) (h : BPoly.rem F o fuel f gs = .error k) :
     k.name ∈ kindsOf Gen.errClosed "bivariate.Polynomial.Rem" := by
-  rw [closed_bivariate_Rem, bRem_err h]; kind_mem
+  rw [bRem_err h]; apply closed_bivariate_Rem; kind_mem
 
 theorem bQuoRem_complete :
     kindsOf Gen.errDirect "bivariate.Polynomial.quoRemWithIgnore" = ["InputValue"] ∧
@@ -652,14 +653,17 @@ theorem bQuoRem_complete :
 
 /-! ### bivariate.addDegs (through multNoReduce / Times / Mult) -/
 
-theorem closed_bivariate_addDegs : kindsOf Gen.errClosed "bivariate.addDegs" = ["Overflow"] := by
-  decide +kernel
+theorem closed_bivariate_addDegs :
+    ∀ x ∈ ["Overflow"], x ∈ kindsOf Gen.errClosed "bivariate.addDegs" := by decide +kernel
+/-- exactness claim (not used by the sound proofs): this function constructs nothing else, also through its callees -/
+theorem closedExact_bivariate_addDegs :
+    kindsOf Gen.errClosed "bivariate.addDegs" = ["Overflow"] := by decide +kernel
 theorem direct_bivariate_addDegs : kindsOf Gen.errDirect "bivariate.addDegs" = ["Overflow"] := by
   decide +kernel
-theorem closed_bivariate_multNoReduce : kindsOf Gen.errClosed "bivariate.Polynomial.multNoReduce" =
-    ["InputValue", "InputIncompatible", "ArithmeticIncompat", "Overflow"] := by decide +kernel
-theorem closed_bivariate_Mult : kindsOf Gen.errClosed "bivariate.Polynomial.Mult" =
-    ["InputValue", "InputIncompatible", "ArithmeticIncompat", "Overflow"] := by decide +kernel
+theorem closed_bivariate_multNoReduce :
+    ∀ x ∈ ["Overflow"], x ∈ kindsOf Gen.errClosed "bivariate.Polynomial.multNoReduce" := by decide +kernel
+theorem closed_bivariate_Mult :
+    ∀ x ∈ ["Overflow"], x ∈ kindsOf Gen.errClosed "bivariate.Polynomial.Mult" := by decide +kernel
 
 /-- the model's `addDegs` returns `none` exactly where the code constructs its only error -/
 theorem bTimes_err {α : Type} {R : BPoly.Ring α} {f g : BPoly α} {k : Kind}
@@ -672,8 +676,9 @@ theorem bTimes_sound {α : Type} (R : BPoly.Ring α) (f g : BPoly α) (k : Kind)
     k.name ∈ kindsOf Gen.errClosed "bivariate.addDegs" ∧
     k.name ∈ kindsOf Gen.errClosed "bivariate.Polynomial.multNoReduce" ∧
     k.name ∈ kindsOf Gen.errClosed "bivariate.Polynomial.Mult" := by
-  rw [closed_bivariate_addDegs, closed_bivariate_multNoReduce, closed_bivariate_Mult, bTimes_err h]
-  exact ⟨by kind_mem, by kind_mem, by kind_mem⟩
+  rw [bTimes_err h]
+  exact ⟨closed_bivariate_addDegs _ (by kind_mem), closed_bivariate_multNoReduce _ (by kind_mem),
+    closed_bivariate_Mult _ (by kind_mem)⟩
 
 theorem addDegs_complete : kindsOf Gen.errDirect "bivariate.addDegs" = ["Overflow"] ∧
     BPoly.addDegs (2 ^ 63, 0) (2 ^ 63, 0) = none ∧ BPoly.addDegs (0, 2 ^ 64 - 1) (0, 1) = none ∧
@@ -683,24 +688,24 @@ theorem addDegs_complete : kindsOf Gen.errDirect "bivariate.addDegs" = ["Overflo
 
 /-! ### MinimizeBasis / ReduceBasis -/
 
-theorem closed_bivariate_MinimizeBasis : kindsOf Gen.errClosed "bivariate.Ideal.MinimizeBasis" =
-    ["InputValue", "InputIncompatible", "ArithmeticIncompat", "Overflow"] := by decide +kernel
+theorem closed_bivariate_MinimizeBasis :
+    ∀ x ∈ ["InputValue"], x ∈ kindsOf Gen.errClosed "bivariate.Ideal.MinimizeBasis" := by decide +kernel
 theorem direct_bivariate_MinimizeBasis :
     kindsOf Gen.errDirect "bivariate.Ideal.MinimizeBasis" = ["InputValue"] := by decide +kernel
-theorem closed_bivariate_ReduceBasis : kindsOf Gen.errClosed "bivariate.Ideal.ReduceBasis" =
-    ["InputValue", "InputIncompatible", "ArithmeticIncompat", "Overflow"] := by decide +kernel
+theorem closed_bivariate_ReduceBasis :
+    ∀ x ∈ ["InputValue"], x ∈ kindsOf Gen.errClosed "bivariate.Ideal.ReduceBasis" := by decide +kernel
 theorem direct_bivariate_ReduceBasis :
     kindsOf Gen.errDirect "bivariate.Ideal.ReduceBasis" = ["InputValue"] := by decide +kernel
 
 theorem minimizeBasis_sound {α : Type} (F : FOps α) (o : Order) (id id' : BPoly.Ideal α) (k : Kind)
     (h : id.minimizeBasis F o = some (id', .error k)) :
     k.name ∈ kindsOf Gen.errClosed "bivariate.Ideal.MinimizeBasis" := by
-  rw [closed_bivariate_MinimizeBasis, (BPoly.minimizeBasis_error_iff.1 h).2]; kind_mem
+  rw [(BPoly.minimizeBasis_error_iff.1 h).2]; apply closed_bivariate_MinimizeBasis; kind_mem
 
 theorem reduceBasis_sound {α : Type} (F : FOps α) (o : Order) (id id' : BPoly.Ideal α) (k : Kind)
     (h : id.reduceBasis F o = some (id', .error k)) :
     k.name ∈ kindsOf Gen.errClosed "bivariate.Ideal.ReduceBasis" := by
-  rw [closed_bivariate_ReduceBasis, (BPoly.reduceBasis_error_iff.1 h).2]; kind_mem
+  rw [(BPoly.reduceBasis_error_iff.1 h).2]; apply closed_bivariate_ReduceBasis; kind_mem
 
 /-- GF(3), Lex: `{XY + 2, Y² + 2}` is not a Gröbner basis -/
 theorem basis_complete :
@@ -714,12 +719,12 @@ theorem basis_complete :
 
 /-! ### Interpolate -/
 
-theorem closed_univariate_Interpolate : kindsOf Gen.errClosed "univariate.QuotientRing.Interpolate" =
-    ["InputValue", "InputIncompatible", "ArithmeticIncompat", "Overflow"] := by decide +kernel
+theorem closed_univariate_Interpolate :
+    ∀ x ∈ ["InputValue"], x ∈ kindsOf Gen.errClosed "univariate.QuotientRing.Interpolate" := by decide +kernel
 theorem direct_univariate_Interpolate :
     kindsOf Gen.errDirect "univariate.QuotientRing.Interpolate" = ["InputValue"] := by decide +kernel
-theorem closed_bivariate_Interpolate : kindsOf Gen.errClosed "bivariate.QuotientRing.Interpolate" =
-    ["InputValue", "InputIncompatible", "ArithmeticIncompat", "Overflow"] := by decide +kernel
+theorem closed_bivariate_Interpolate :
+    ∀ x ∈ ["InputValue", "Overflow"], x ∈ kindsOf Gen.errClosed "bivariate.QuotientRing.Interpolate" := by decide +kernel
 theorem direct_bivariate_Interpolate :
     kindsOf Gen.errDirect "bivariate.QuotientRing.Interpolate" = ["InputValue"] := by decide +kernel
 
@@ -732,7 +737,7 @@ theorem uInterp_err {α : Type} {F : FOps α} {ps vs : List α} {k : Kind}
 theorem uInterp_sound {α : Type} (F : FOps α) (ps vs : List α) (k : Kind)
     (h : UPoly.interpolate F ps vs = .error k) :
     k.name ∈ kindsOf Gen.errClosed "univariate.QuotientRing.Interpolate" := by
-  rw [closed_univariate_Interpolate, uInterp_err h]; kind_mem
+  rw [uInterp_err h]; apply closed_univariate_Interpolate; kind_mem
 
 /-- both sites: different numbers of points and values; a repeated point -/
 theorem uInterp_complete : kindsOf Gen.errDirect "univariate.QuotientRing.Interpolate" = ["InputValue"] ∧
@@ -771,7 +776,7 @@ theorem bInterp_err {α : Type} {R : BPoly.Ring α} {ps : List (α × α)} {vs :
 theorem bInterp_sound {α : Type} (R : BPoly.Ring α) (ps : List (α × α)) (vs : List α) (k : Kind)
     (h : BPoly.interpolate R ps vs = .error k) :
     k.name ∈ kindsOf Gen.errClosed "bivariate.QuotientRing.Interpolate" := by
-  rw [closed_bivariate_Interpolate]
+  apply closed_bivariate_Interpolate
   rcases bInterp_err h with rfl | rfl <;> kind_mem
 
 theorem bInterp_complete : kindsOf Gen.errDirect "bivariate.QuotientRing.Interpolate" = ["InputValue"] ∧
@@ -784,14 +789,13 @@ theorem bInterp_complete : kindsOf Gen.errDirect "bivariate.QuotientRing.Interpo
 /-! ### tables -/
 
 theorem closed_primefield_ComputeTables :
-    kindsOf Gen.errClosed "primefield.Field.ComputeTables" = ["InputTooLarge"] := by decide +kernel
+    ∀ x ∈ ["InputTooLarge"], x ∈ kindsOf Gen.errClosed "primefield.Field.ComputeTables" := by decide +kernel
 theorem closed_primefield_newTable :
-    kindsOf Gen.errClosed "primefield.newTable" = ["InputTooLarge"] := by decide +kernel
+    ∀ x ∈ ["InputTooLarge"], x ∈ kindsOf Gen.errClosed "primefield.newTable" := by decide +kernel
 theorem direct_primefield_newTable :
     kindsOf Gen.errDirect "primefield.newTable" = ["InputTooLarge"] := by decide +kernel
-theorem closed_extfield_newLogTable : kindsOf Gen.errClosed "extfield.newLogTable" =
-    ["InputValue", "InputIncompatible", "InputTooLarge", "ArithmeticIncompat", "Overflow"] := by
-  decide +kernel
+theorem closed_extfield_newLogTable :
+    ∀ x ∈ ["InputTooLarge"], x ∈ kindsOf Gen.errClosed "extfield.newLogTable" := by decide +kernel
 theorem direct_extfield_newLogTable :
     kindsOf Gen.errDirect "extfield.newLogTable" = ["InputTooLarge"] := by decide +kernel
 
@@ -804,8 +808,8 @@ theorem computeTables_sound (p : Nat) (a m : Bool) (mm : Nat) (k : Kind)
     (h : Prime.computeTables p a m mm = .error k) :
     k.name ∈ kindsOf Gen.errClosed "primefield.Field.ComputeTables" ∧
     k.name ∈ kindsOf Gen.errClosed "primefield.newTable" := by
-  rw [closed_primefield_ComputeTables, closed_primefield_newTable, computeTables_err h]
-  exact ⟨by kind_mem, by kind_mem⟩
+  rw [computeTables_err h]
+  exact ⟨closed_primefield_ComputeTables _ (by kind_mem), closed_primefield_newTable _ (by kind_mem)⟩
 
 theorem computeTables_complete : kindsOf Gen.errDirect "primefield.newTable" = ["InputTooLarge"] ∧
     Prime.computeTables 65537 true false 1000 = .error .inputTooLarge :=
@@ -819,10 +823,10 @@ theorem stepT_tables_sound {α : Type} (desc : FieldDesc) (s : St α) (f : Nat) 
       Kind.inputTooLarge.name ∈ kindsOf Gen.errClosed "primefield.Field.ComputeTables" ∧
       Kind.inputTooLarge.name ∈ kindsOf Gen.errClosed "extfield.newLogTable") := by
   have hname : "err " ++ Kind.inputTooLarge.name = "err InputTooLarge" := by decide +kernel
-  rw [closed_primefield_ComputeTables, closed_extfield_newLogTable, hname]
-  have hm : "InputTooLarge" ∈ ["InputTooLarge"] ∧ "InputTooLarge" ∈
-      ["InputValue", "InputIncompatible", "InputTooLarge", "ArithmeticIncompat", "Overflow"] := by
-    simp
+  rw [hname]
+  have hm : Kind.inputTooLarge.name ∈ kindsOf Gen.errClosed "primefield.Field.ComputeTables" ∧
+      Kind.inputTooLarge.name ∈ kindsOf Gen.errClosed "extfield.newLogTable" :=
+    ⟨closed_primefield_ComputeTables _ (by kind_mem), closed_extfield_newLogTable _ (by kind_mem)⟩
   unfold stepT at h
   cases desc with
   | prime p =>
@@ -862,6 +866,12 @@ theorem inv_complete : Prime.inv 7 0 = none ∧ Bin.inv 3 11 0 = none ∧ Ext.in
 /-! ### the variable-name setters -/
 
 theorem closed_SetVarName :
+    (∀ x ∈ ["InputValue"], x ∈ kindsOf Gen.errClosed "univariate.QuotientRing.SetVarName") ∧
+    (∀ x ∈ ["InputValue"], x ∈ kindsOf Gen.errClosed "bivariate.QuotientRing.SetVarNames") ∧
+    (∀ x ∈ ["InputValue"], x ∈ kindsOf Gen.errClosed "binfield.Field.SetVarName") := by
+  refine ⟨by decide +kernel, by decide +kernel, by decide +kernel⟩
+/-- exactness claim (not used by the sound proofs): the setters construct nothing but InputValue -/
+theorem closedExact_SetVarName :
     kindsOf Gen.errClosed "univariate.QuotientRing.SetVarName" = ["InputValue"] ∧
     kindsOf Gen.errClosed "bivariate.QuotientRing.SetVarNames" = ["InputValue"] ∧
     kindsOf Gen.errClosed "binfield.Field.SetVarName" = ["InputValue"] := by
@@ -874,14 +884,14 @@ theorem direct_SetVarName :
 
 theorem setVarName_sound (old new : String) (k : Kind) (h : (Names.setVarName old new).2 = .error k) :
     k.name ∈ kindsOf Gen.errClosed "univariate.QuotientRing.SetVarName" := by
-  rw [closed_SetVarName.1]
+  apply closed_SetVarName.1
   unfold Names.setVarName at h
   simp only at h
   split at h <;> cases h; kind_mem
 
 theorem binSetVarName_sound (old new : String) (k : Kind) (h : (Names.binSetVarName old new).2 = .error k) :
     k.name ∈ kindsOf Gen.errClosed "binfield.Field.SetVarName" := by
-  rw [closed_SetVarName.2.2]
+  apply closed_SetVarName.2.2
   unfold Names.binSetVarName at h
   simp only at h
   repeat' split at h
@@ -890,7 +900,7 @@ theorem binSetVarName_sound (old new : String) (k : Kind) (h : (Names.binSetVarN
 theorem setVarNames_sound (old new : String × String) (k : Kind)
     (h : (Names.setVarNames old new).2 = .error k) :
     k.name ∈ kindsOf Gen.errClosed "bivariate.QuotientRing.SetVarNames" := by
-  rw [closed_SetVarName.2.1]
+  apply closed_SetVarName.2.1
   unfold Names.setVarNames at h
   simp only at h
   repeat' split at h
@@ -913,24 +923,24 @@ theorem errReply_names :
     "err-ideal " ++ Kind.inputValue.name = "err-ideal InputValue" := by
   refine ⟨by decide +kernel, by decide +kernel, by decide +kernel⟩
 
-theorem closed_univariate_NewIdeal : kindsOf Gen.errClosed "univariate.QuotientRing.NewIdeal" =
-    ["InputValue", "InputIncompatible", "ArithmeticIncompat", "Overflow"] := by decide +kernel
+theorem closed_univariate_NewIdeal :
+    ∀ x ∈ ["InputValue"], x ∈ kindsOf Gen.errClosed "univariate.QuotientRing.NewIdeal" := by decide +kernel
 theorem direct_univariate_NewIdeal : kindsOf Gen.errDirect "univariate.QuotientRing.NewIdeal" =
     ["InputValue", "InputIncompatible"] := by decide +kernel
-theorem closed_univariate_Quotient : kindsOf Gen.errClosed "univariate.QuotientRing.Quotient" =
-    ["InputValue", "InputIncompatible"] := by decide +kernel
+theorem closed_univariate_Quotient :
+    ∀ x ∈ ["InputValue", "InputIncompatible"], x ∈ kindsOf Gen.errClosed "univariate.QuotientRing.Quotient" := by decide +kernel
 theorem direct_univariate_Quotient : kindsOf Gen.errDirect "univariate.QuotientRing.Quotient" =
     ["InputValue", "InputIncompatible"] := by decide +kernel
-theorem closed_bivariate_NewIdeal : kindsOf Gen.errClosed "bivariate.QuotientRing.NewIdeal" =
-    ["InputValue", "InputIncompatible"] := by decide +kernel
+theorem closed_bivariate_NewIdeal :
+    ∀ x ∈ ["InputValue", "InputIncompatible"], x ∈ kindsOf Gen.errClosed "bivariate.QuotientRing.NewIdeal" := by decide +kernel
 theorem direct_bivariate_NewIdeal : kindsOf Gen.errDirect "bivariate.QuotientRing.NewIdeal" =
     ["InputIncompatible", "InputValue"] := by decide +kernel
-theorem closed_bivariate_Quotient : kindsOf Gen.errClosed "bivariate.QuotientRing.Quotient" =
-    ["InputValue", "InputIncompatible", "ArithmeticIncompat", "Overflow"] := by decide +kernel
+theorem closed_bivariate_Quotient :
+    ∀ x ∈ ["InputValue"], x ∈ kindsOf Gen.errClosed "bivariate.QuotientRing.Quotient" := by decide +kernel
 theorem direct_bivariate_Quotient : kindsOf Gen.errDirect "bivariate.QuotientRing.Quotient" =
     ["InputValue", "InputIncompatible"] := by decide +kernel
-theorem closed_bivariate_SPolynomial : kindsOf Gen.errClosed "bivariate.SPolynomial" =
-    ["InputValue", "InputIncompatible", "ArithmeticIncompat", "Overflow"] := by decide +kernel
+theorem closed_bivariate_SPolynomial :
+    ∀ x ∈ ["InputValue"], x ∈ kindsOf Gen.errClosed "bivariate.SPolynomial" := by decide +kernel
 theorem direct_bivariate_SPolynomial : kindsOf Gen.errDirect "bivariate.SPolynomial" =
     ["InputValue"] := by decide +kernel
 
@@ -946,15 +956,17 @@ theorem uquot_reply_sound (st : St α) (k j : Nat) (gens : List (UPoly α)) :
       Kind.inputValue.name ∈ kindsOf Gen.errClosed "univariate.QuotientRing.NewIdeal") ∨
     (∃ kd : Kind, (uquotOp env st k j gens).2 = "err " ++ kd.name ∧
       kd.name ∈ kindsOf Gen.errClosed "univariate.QuotientRing.Quotient") := by
-  rw [closed_univariate_NewIdeal, closed_univariate_Quotient, errReply_names.2.2]
-  have hm : "InputValue" ∈ ["InputValue", "InputIncompatible", "ArithmeticIncompat", "Overflow"] := by simp
+  rw [errReply_names.2.2]
+  have hm := closed_univariate_NewIdeal Kind.inputValue.name (by kind_mem)
   unfold uquotOp
   repeat' split
   · exact .inr (.inl rfl)
   · exact .inr (.inr (.inl ⟨rfl, hm⟩))
   · exact .inr (.inr (.inl ⟨rfl, hm⟩))
-  · exact .inr (.inr (.inr ⟨.inputValue, by rw [errReply_names.1], by simp [Kind.toString]⟩))
-  · exact .inr (.inr (.inr ⟨.inputIncompatible, by rw [errReply_names.2.1], by simp [Kind.toString]⟩))
+  · exact .inr (.inr (.inr ⟨.inputValue, by rw [errReply_names.1],
+      closed_univariate_Quotient _ (by kind_mem)⟩))
+  · exact .inr (.inr (.inr ⟨.inputIncompatible, by rw [errReply_names.2.1],
+      closed_univariate_Quotient _ (by kind_mem)⟩))
   · exact .inl rfl
 
 /-- `bivariate.(*QuotientRing).NewIdeal` (`Op.iNew`): the error replies are InputIncompatible and
@@ -964,12 +976,13 @@ theorem iNew_reply_sound (s : St α) (dst ring : Nat) (gs : List Nat) :
       ((∃ kd : Kind, r.2 = "err " ++ kd.name ∧
           kd.name ∈ kindsOf Gen.errClosed "bivariate.QuotientRing.NewIdeal") ∨
        ∃ gens, r.2 = "ok " ++ showGens env (bord env 0) gens) := by
-  rw [closed_bivariate_NewIdeal]
   simp only [stepB]
   split
-  · exact ⟨_, rfl, .inl ⟨.inputIncompatible, by rw [errReply_names.2.1], by simp [Kind.toString]⟩⟩
+  · exact ⟨_, rfl, .inl ⟨.inputIncompatible, by rw [errReply_names.2.1],
+      closed_bivariate_NewIdeal _ (by kind_mem)⟩⟩
   · split
-    · exact ⟨_, rfl, .inl ⟨.inputValue, by rw [errReply_names.1], by simp [Kind.toString]⟩⟩
+    · exact ⟨_, rfl, .inl ⟨.inputValue, by rw [errReply_names.1],
+        closed_bivariate_NewIdeal _ (by kind_mem)⟩⟩
     · exact ⟨_, rfl, .inr ⟨_, rfl⟩⟩
 
 /-- `quotient@1` (a quotient of a quotient ring: InputValue) -/
@@ -977,11 +990,11 @@ theorem quotient1_reply_sound (st : St α) (n : Nat) :
     (quotient1Op env st n).2 = "bad-op" ∨
     ((quotient1Op env st n).2 = "err " ++ Kind.inputValue.name ∧
       Kind.inputValue.name ∈ kindsOf Gen.errClosed "bivariate.QuotientRing.Quotient") := by
-  rw [closed_bivariate_Quotient, errReply_names.1]
+  rw [errReply_names.1]
   unfold quotient1Op
   simp only
   split
-  · exact .inr ⟨rfl, by simp [Kind.toString]⟩
+  · exact .inr ⟨rfl, closed_bivariate_Quotient _ (by kind_mem)⟩
   · exact .inl rfl
 
 /-- `bivariate.SPolynomial` (`spolyOp`) with error-free operands of one ring: the only error reply is
@@ -991,11 +1004,11 @@ theorem spoly_reply_sound (st : St α) (dst a b : Nat) (hc : bCheck (bGet st a) 
     ((spolyOp env st dst a b).2 = "err " ++ Kind.inputValue.name ∧
       Kind.inputValue.name ∈ kindsOf Gen.errClosed "bivariate.SPolynomial") ∨
     ∃ r : BReg α, (spolyOp env st dst a b).2 = "ok " ++ showB env r := by
-  rw [closed_bivariate_SPolynomial, errReply_names.1]
+  rw [errReply_names.1]
   unfold spolyOp
   simp only [hc]
   repeat' split
-  · exact .inr (.inl ⟨rfl, by simp [Kind.toString]⟩)
+  · exact .inr (.inl ⟨rfl, closed_bivariate_SPolynomial _ (by kind_mem)⟩)
   · exact .inl rfl
   · exact .inl rfl
   · exact .inr (.inr ⟨_, rfl⟩)
